@@ -10,6 +10,7 @@ import ast
 
 from ..callgraph import CallGraph
 from ..model import call_name, own_nodes, unparse
+from ..model import self_assigns
 from ..pathcond import path_info
 from ..taint import OrderTaint
 
@@ -202,7 +203,7 @@ def run(pm, ctx):
               msg='an output context no longer starts/ends with an empty buffer',
               key='C12-R2|%s|brackets' % otp.qualname)
     cob = pm.func('stone.backend.Backend.clear_output_buffer')
-    st = {unparse(n.targets[0]) for n in own_nodes(cob.node) if isinstance(n, ast.Assign)}
+    st = set(self_assigns(cob.node))
     ctx.check('C12-R2', st == {'self.output', 'self.positional_placeholders',
                                'self.named_placeholders'},
               'clear_output_buffer resets the buffer and both placeholder tables', cob.loc,
